@@ -44,6 +44,9 @@ def bounded_cases(seed, thorough=False):
             ok = len(w) == len(want_avg) and numpy.allclose(numpy.asarray(w, dtype=float), want_avg, rtol=2e-3)
             yield {'name': f"slit_published_equation_round_trip|{matname}|T={T}", 'ok': bool(ok),
                    'detail': '' if ok else f"widths {numpy.asarray(w)[:4]} vs {want_avg[:4]}"}
+        if matname == mats[0]:
+            bad = _entry_point_sequence()
+            yield {'name': 'entry_point_uses_parameters_of_each_isotherm_in_a_sequence', 'ok': not bad, 'detail': str(bad[:2])[:300]}
         for model, geom in [(m, g) for m in ('HK', 'HK-CY', 'RY', 'RY-CY') for g in ('slit', 'cylinder', 'sphere')]:
             p = numpy.geomspace(1e-6, 0.1, 10)
             loading = 5 * p ** 0.3 / (1 + p ** 0.3)
@@ -60,6 +63,36 @@ def bounded_cases(seed, thorough=False):
             tail = bool(numpy.allclose(numpy.asarray(vcum, dtype=float), V[1:k + 1]))
             yield {'name': f"tail_and_monotone|{model}|{geom}|{matname}", 'ok': mono and tail,
                    'detail': '' if (mono and tail) else f"widths non-decreasing: {mono}; cumulative == liquid volume: {tail}"}
+
+
+def _entry_point_sequence():
+    """psd_microporous on isotherms of one adsorbate at several temperatures, in one process: every result equals the same
+    calculation with the parameters written out by hand (database properties + liquid density at that temperature)"""
+    import pygaps
+    import pygaps.characterisation.psd_micro as PMi
+    pygaps.logger.disabled = True
+    p = numpy.geomspace(1e-6, 0.15, 12)
+    bad = []
+    for T in (77.355, 87.3, 77.355, 70.0):
+        loading = 5 * p ** 0.3 / (1 + p ** 0.3)
+        iso = pygaps.PointIsotherm(pressure=list(p), loading=list(loading), material='pgv_c17', adsorbate='nitrogen', temperature=T, pressure_mode='relative',
+                                   pressure_unit=None, loading_basis='molar', loading_unit='mmol', material_basis='mass', material_unit='g', temperature_unit='K')
+        a = iso.adsorbate
+        am = {'molecular_diameter': a.get_prop('molecular_diameter'), 'polarizability': a.get_prop('polarizability'),
+              'magnetic_susceptibility': a.get_prop('magnetic_susceptibility'), 'surface_density': a.get_prop('surface_density'),
+              'liquid_density': a.liquid_density(T), 'adsorbate_molar_mass': a.molar_mass()}
+        got = PMi.psd_microporous(iso, psd_model='HK', pore_geometry='slit')
+        want = PMi.psd_microporous(iso, psd_model='HK', pore_geometry='slit', adsorbate_model=am)
+        for k in ('pore_widths', 'pore_distribution', 'pore_volume_cumulative'):
+            if not numpy.allclose(numpy.asarray(got[k], dtype=float), numpy.asarray(want[k], dtype=float), rtol=1e-9):
+                bad.append({'temperature': T, 'result': k, 'from_isotherm': [float(v) for v in got[k][-2:]], 'parameters_written_out': [float(v) for v in want[k][-2:]]})
+    return bad
+
+
+@replayer('c17.history')
+def _history(spec, model):
+    bad = _entry_point_sequence()
+    return {'confirmed': bool(bad), 'observed': bad[:3], 'expected': 'adsorbate parameters of the isotherm at hand (liquid density at its temperature)'}
 
 
 @replayer('c17.bounded')
